@@ -592,6 +592,7 @@ func (l *loopState) notifySteps() { //nolint:gocognit
 			// Run-time evaluation failures (absent optional values, index out of range, failing
 			// conversions) end the run with an error.
 			l.logger.Errorf("Cannot resolve expressions for %s (%v)", nodeID, err)
+			verifhook.Emit("ErrPush", "run", l, "kind", "evalfail", "len", len(l.recentErrors))
 			l.recentErrors <- fmt.Errorf("cannot resolve expressions for %s (%w)", nodeID, err)
 			l.cancel()
 			return
